@@ -894,8 +894,10 @@ func (sc *Scope) pureMethod(recv Val, name string, args []Val) Val {
 	if fn == nil || fn.Blocks == nil {
 		return sc.fail("no method %s on %s usable in specs", name, typeKey(t))
 	}
-	if c := e.ctx.contractOf(fn); c != nil && !c.Pure && !c.Inline {
-		return sc.fail("method %s used in a spec must be marked pure or inline", name)
+	c := e.ctx.contractOf(fn)
+	byContract := c != nil && !c.Inline && len(c.Ensures) > 0 && (c.Pure || (c.Assigns != nil && len(c.Assigns.Targets) == 0))
+	if c != nil && !c.Pure && !c.Inline && !byContract {
+		return sc.fail("method %s used in a spec must be marked pure or inline, or have a contract with 'assigns nothing'", name)
 	}
 	st := sc.st.clone()
 	rt := resultType(fn.Signature)
@@ -911,6 +913,13 @@ func (sc *Scope) pureMethod(recv Val, name string, args []Val) Val {
 	}
 	if sc.bound > 0 {
 		r = "true" // under a quantifier the guard may mention bound variables; inlined bodies there must be assumption-free
+	}
+	if byContract {
+		// a side-effect free method with a contract (typically one with loops): its postconditions, on a copy of the state
+		e.mute++
+		v := e.callByContract(sc.fr, fn, c, all, &st, r, token.NoPos, rt)
+		e.mute--
+		return v
 	}
 	return e.inlineCall(sc.fr, fn, all, &st, r, rt)
 }
